@@ -101,6 +101,14 @@ pub fn gen_run(r: &mut Rng) -> (Vec<Doc>, Option<u64>) {
         }
         docs.push(d);
     }
+    // a detached test followed (in the same document run) by a test that times out: results must stay aligned with their tests
+    if r.chance(1, 8) && !slow_used {
+        let mut tests = vec![T { kind: *r.pick(&['P', 'D']), code: 0, inline_skip: None }, T { kind: 'D', code: 0, inline_skip: None }];
+        if r.chance(1, 2) { tests.push(T { kind: *r.pick(&['P', 'O']), code: 0, inline_skip: None }); }
+        tests.push(T { kind: 'T', code: 0, inline_skip: None });
+        for _ in 0..r.range(0, 2) { tests.push(T { kind: *r.pick(&['P', 'O', 'D']), code: 0, inline_skip: None }); }
+        docs.push(Doc { cram: false, role: 'm', docskip: None, total_ms: None, tests });
+    }
     let any_cram = docs.iter().any(|d| d.cram);
     if r.chance(1, 4) {
         let n = r.range(1, 2);
